@@ -1,6 +1,527 @@
 package rules
 
-import "gofasta-verif/core"
+import (
+	"fmt"
+	"go/ast"
+	"go/token"
+	"go/types"
+	"sort"
+	"strings"
 
-// checkPoolOrder is implemented in the C12 engine (order2.go); placeholder until then.
-func checkPoolOrder(c *core.Ctx, rule, pkg, entry string) {}
+	"golang.org/x/tools/go/ssa"
+
+	"gofasta-verif/core"
+)
+
+// ---------------------------------------------------------------- C-fanin: pool output must be re-ordered
+
+type poolInfo struct {
+	entry   *ssa.Function
+	workers map[*ssa.Function]bool // functions running inside pool goroutines
+}
+
+// calleesOf lists static callees (and closures created) inside f, transitively up to depth.
+func calleesOf(f *ssa.Function, depth int, out map[*ssa.Function]bool) {
+	if f == nil || out[f] || depth < 0 {
+		return
+	}
+	out[f] = true
+	for _, b := range f.Blocks {
+		for _, ins := range b.Instrs {
+			switch x := ins.(type) {
+			case ssa.CallInstruction:
+				if cal := x.Common().StaticCallee(); cal != nil && inRepo(cal) {
+					calleesOf(cal, depth-1, out)
+				}
+			case *ssa.MakeClosure:
+				if fn, ok := x.Fn.(*ssa.Function); ok {
+					calleesOf(fn, depth-1, out)
+				}
+			}
+		}
+	}
+}
+
+func blockInLoop(b *ssa.BasicBlock) bool { return reaches(b, b) }
+
+// pools finds goroutines started inside loops of f (worker pools).
+func pools(f *ssa.Function) *poolInfo {
+	pi := &poolInfo{entry: f, workers: map[*ssa.Function]bool{}}
+	for _, b := range f.Blocks {
+		for _, ins := range b.Instrs {
+			g, ok := ins.(*ssa.Go)
+			if !ok || !blockInLoop(b) {
+				continue
+			}
+			var fn *ssa.Function
+			if cal := g.Common().StaticCallee(); cal != nil {
+				fn = cal
+			} else if mc, ok := g.Common().Value.(*ssa.MakeClosure); ok {
+				fn, _ = mc.Fn.(*ssa.Function)
+			}
+			if fn != nil {
+				calleesOf(fn, 3, pi.workers)
+			}
+		}
+	}
+	return pi
+}
+
+func isDataChan(t types.Type) bool {
+	ch, ok := t.Underlying().(*types.Chan)
+	if !ok {
+		return false
+	}
+	if isErrorType(ch.Elem()) {
+		return false
+	}
+	if b, ok := ch.Elem().Underlying().(*types.Basic); ok && b.Kind() == types.Bool {
+		return false
+	}
+	return true
+}
+
+// consumerTaint analyses a function that receives from a pool-written channel: values derived
+// from a received item must not reach an output write, a forwarding send or escaping storage
+// except through an index-keyed map (re-orderer), a slot store keyed by the item's own field,
+// an aggregation map, or a file created per item.
+func consumerTaint(c *core.Ctx, p *progFacts, rf *ssa.Function, recvs []ssa.Value) (ok bool, why string, pos token.Pos) {
+	taint := map[ssa.Value]bool{}
+	var work []ssa.Value
+	add := func(v ssa.Value) {
+		if v != nil && !taint[v] {
+			taint[v] = true
+			work = append(work, v)
+		}
+	}
+	for _, r := range recvs {
+		add(r)
+	}
+	ok = true
+	fail := func(w string, ps token.Pos) {
+		if ok {
+			ok, why, pos = false, w, ps
+		}
+	}
+	perItemFile := func(dest ssa.Value) bool {
+		for _, o := range origins(dest) {
+			if ex, isEx := o.(*ssa.Extract); isEx {
+				if call, isCall := ex.Tuple.(*ssa.Call); isCall {
+					if cal := call.Common().StaticCallee(); cal != nil && cal.String() == "os.Create" {
+						return true
+					}
+				}
+			}
+			if call, isCall := o.(*ssa.Call); isCall {
+				if cal := call.Common().StaticCallee(); cal != nil && cal.String() == "os.Create" {
+					return true
+				}
+			}
+		}
+		return false
+	}
+	for len(work) > 0 {
+		v := work[len(work)-1]
+		work = work[:len(work)-1]
+		refs := v.Referrers()
+		if refs == nil {
+			continue
+		}
+		for _, r := range *refs {
+			switch x := r.(type) {
+			case *ssa.MapUpdate:
+				// stored into a map: re-order buffer or aggregation; iteration order is C-map's business
+			case *ssa.Store:
+				if x.Val != v {
+					continue
+				}
+				switch a := x.Addr.(type) {
+				case *ssa.Alloc:
+					for _, ar := range *a.Referrers() {
+						if u, isU := ar.(*ssa.UnOp); isU && u.Op == token.MUL {
+							add(u)
+						}
+						if fa, isFA := ar.(*ssa.FieldAddr); isFA {
+							add(fa)
+						}
+					}
+				case *ssa.IndexAddr:
+					// element of a local array (variadic argument list): taint the array
+					if al, isAl := a.X.(*ssa.Alloc); isAl {
+						for _, ar := range *al.Referrers() {
+							if sl, isSl := ar.(*ssa.Slice); isSl {
+								add(sl)
+							}
+						}
+						continue
+					}
+					// slot store: index must come from the item itself
+					idxTainted := false
+					for _, o := range origins(a.Index) {
+						if taint[o] {
+							idxTainted = true
+						}
+					}
+					if f, isF := a.Index.(*ssa.Field); isF && taint[f.X] {
+						idxTainted = true
+					}
+					if taint[a.Index] {
+						idxTainted = true
+					}
+					if !idxTainted {
+						fail("a received item is stored at a position that does not come from the item's own index (arrival order)", x.Pos())
+					}
+				case *ssa.FieldAddr:
+					// field of a local struct: taint the struct's loads
+					add(a.X)
+				default:
+					fail("a received item is stored in shared state in arrival order", x.Pos())
+				}
+			case *ssa.Send:
+				if x.X == v {
+					if ch, isCh := x.Chan.Type().Underlying().(*types.Chan); isCh && isErrorType(ch.Elem()) {
+						continue
+					}
+					fail("a received item is forwarded in arrival order (no index re-ordering)", x.Pos())
+				}
+			case *ssa.Lookup:
+				if x.Index == v {
+					add(x) // looked up by the received key: still arrival order
+				}
+				// x.X == v (tainted map) cannot happen: maps are not tainted
+			case ssa.CallInstruction:
+				com := x.Common()
+				if b, isB := com.Value.(*ssa.Builtin); isB {
+					switch b.Name() {
+					case "append":
+						if cv := x.Value(); cv != nil {
+							add(cv)
+						}
+					case "len", "cap", "delete", "copy":
+					}
+					continue
+				}
+				// write sink?
+				isSink := false
+				var dest ssa.Value
+				if com.IsInvoke() && (com.Method.Name() == "Write" || com.Method.Name() == "WriteString") {
+					isSink, dest = true, com.Value
+				} else if cal := com.StaticCallee(); cal != nil {
+					switch cal.String() {
+					case "(*os.File).Write", "(*os.File).WriteString", "fmt.Fprint", "fmt.Fprintf", "fmt.Fprintln", "io.WriteString":
+						isSink, dest = true, com.Args[0]
+					}
+				}
+				if isSink {
+					if isGlobalNamed(dest, "os", "Stderr") || perItemFile(dest) {
+						continue
+					}
+					fail("data derived from a received item is written in arrival order (the consumer of a worker pool must re-order by input index)", x.Pos())
+					continue
+				}
+				if cv := x.Value(); cv != nil {
+					add(cv)
+				}
+			case *ssa.Field, *ssa.FieldAddr, *ssa.Extract, *ssa.Phi, *ssa.BinOp, *ssa.Convert, *ssa.ChangeType,
+				*ssa.MakeInterface, *ssa.Slice, *ssa.Index, *ssa.IndexAddr, *ssa.Range, *ssa.Next, *ssa.UnOp, *ssa.ChangeInterface, *ssa.TypeAssert:
+				if vv, isV := r.(ssa.Value); isV {
+					// the comparison results and lengths are not data
+					if bo, isBO := r.(*ssa.BinOp); isBO {
+						switch bo.Op {
+						case token.EQL, token.NEQ, token.LSS, token.LEQ, token.GTR, token.GEQ:
+							continue
+						}
+					}
+					add(vv)
+				}
+			case *ssa.MakeClosure:
+				fail("a received item is captured by a closure", x.Pos())
+			}
+		}
+	}
+	return
+}
+
+// checkPoolOrderSSA applies C-fanin to one entry function.
+func checkPoolOrderSSA(c *core.Ctx, p *progFacts, rule string, f *ssa.Function) (nPools, nConsumers int) {
+	pi := pools(f)
+	if len(pi.workers) == 0 {
+		return 0, 0
+	}
+	nPools = 1
+	var chans []*ssa.MakeChan
+	allInstrs(f, func(fn *ssa.Function, ins ssa.Instruction) {
+		if mc, ok := ins.(*ssa.MakeChan); ok && isDataChan(mc.Type()) && fn == f {
+			chans = append(chans, mc)
+		}
+	})
+	for _, mc := range chans {
+		poolWritten := false
+		for _, s := range p.sendsOn(mc) {
+			if pi.workers[s.Parent()] {
+				poolWritten = true
+			}
+		}
+		if !poolWritten {
+			continue
+		}
+		// receivers
+		recvBy := map[*ssa.Function][]ssa.Value{}
+		for _, g := range p.funcs {
+			for _, b := range g.Blocks {
+				for _, ins := range b.Instrs {
+					u, ok := ins.(*ssa.UnOp)
+					if !ok || u.Op != token.ARROW {
+						continue
+					}
+					for _, src := range p.chanSources(u.X) {
+						if src == mc {
+							recvBy[g] = append(recvBy[g], u)
+						}
+					}
+				}
+			}
+		}
+		var rfs []*ssa.Function
+		for g := range recvBy {
+			rfs = append(rfs, g)
+		}
+		sort.Slice(rfs, func(i, j int) bool { return fnKey(rfs[i]) < fnKey(rfs[j]) })
+		for _, g := range rfs {
+			if pi.workers[g] {
+				continue // pool -> pool
+			}
+			nConsumers++
+			ok, why, pos := consumerTaint(c, p, g, recvBy[g])
+			if !pos.IsValid() {
+				pos = g.Pos()
+			}
+			c.Ob(fmt.Sprintf("%s/%s/consumer/%s", rule, fnKey(f), fnKey(g)), ok, pos, "%s", why)
+		}
+	}
+	return
+}
+
+// checkPoolOrder is the per-entry variant used by the individual properties.
+func checkPoolOrder(c *core.Ctx, rule, pkg, entry string) {
+	f := c.SSAFunc(pkg, entry)
+	if f == nil {
+		c.Und(rule+"/order/"+entry, token.NoPos, "UNRESOLVED anchor %s.%s", pkg, entry)
+		return
+	}
+	p := facts(c)
+	np, nc := checkPoolOrderSSA(c, p, rule+"/order", f)
+	c.Ob(fmt.Sprintf("%s/order/%s/has-ordered-consumer", rule, entry), np == 0 || nc >= 1, f.Pos(), "the entry point starts a worker pool but no consumer of its output channel was found")
+}
+
+// ---------------------------------------------------------------- C-map: classification of map iterations
+
+type mapRange struct {
+	pkg   string
+	fn    *ast.FuncDecl
+	stmt  *ast.RangeStmt
+	info  *types.Info
+	class string // single | commutative | order-sensitive
+}
+
+func listMapRanges(c *core.Ctx) []mapRange {
+	var out []mapRange
+	var keys []string
+	for k := range c.Pkgs {
+		keys = append(keys, k)
+	}
+	sort.Strings(keys)
+	for _, k := range keys {
+		p := c.Pkgs[k]
+		for _, file := range p.Syntax {
+			if strings.HasSuffix(c.Fset.Position(file.Pos()).Filename, "indels.go") {
+				continue
+			}
+			for _, d := range file.Decls {
+				fd, ok := d.(*ast.FuncDecl)
+				if !ok || fd.Body == nil {
+					continue
+				}
+				var stack []ast.Node
+				ast.Inspect(fd.Body, func(n ast.Node) bool {
+					if n == nil {
+						stack = stack[:len(stack)-1]
+						return true
+					}
+					stack = append(stack, n)
+					rs, ok := n.(*ast.RangeStmt)
+					if !ok {
+						return true
+					}
+					if _, isMap := p.TypesInfo.TypeOf(rs.X).Underlying().(*types.Map); !isMap {
+						return true
+					}
+					mr := mapRange{pkg: k, fn: fd, stmt: rs, info: p.TypesInfo}
+					mr.class = classifyMapRange(p.TypesInfo, rs, stack)
+					out = append(out, mr)
+					return true
+				})
+			}
+		}
+	}
+	return out
+}
+
+func exprString(e ast.Expr) string { return types.ExprString(e) }
+
+func classifyMapRange(info *types.Info, rs *ast.RangeStmt, stack []ast.Node) string {
+	x := exprString(rs.X)
+	// single: guarded by len(X) == 1 (if) or `switch len(X) { case 1:`
+	for i := len(stack) - 2; i >= 0; i-- {
+		switch n := stack[i].(type) {
+		case *ast.CaseClause:
+			// find the switch
+			for j := i - 1; j >= 0; j-- {
+				if sw, ok := stack[j].(*ast.SwitchStmt); ok && sw.Tag != nil {
+					if call, ok := sw.Tag.(*ast.CallExpr); ok && exprString(call.Fun) == "len" && len(call.Args) == 1 && exprString(call.Args[0]) == x {
+						for _, e := range n.List {
+							if tv, ok := info.Types[e]; ok && tv.Value != nil && tv.Value.ExactString() == "1" && len(n.List) == 1 {
+								return "single"
+							}
+						}
+					}
+					break
+				}
+			}
+		case *ast.IfStmt:
+			if be, ok := n.Cond.(*ast.BinaryExpr); ok && be.Op == token.EQL {
+				if call, ok := be.X.(*ast.CallExpr); ok && exprString(call.Fun) == "len" && len(call.Args) == 1 && exprString(call.Args[0]) == x {
+					if tv, ok := info.Types[be.Y]; ok && tv.Value != nil && tv.Value.ExactString() == "1" {
+						// only the then-branch is guarded
+						if i+1 < len(stack) && stack[i+1] == ast.Node(n.Body) {
+							return "single"
+						}
+					}
+				}
+			}
+		}
+	}
+	// commutative: body is only guarded extrema updates, counters, map/set updates
+	if commutativeBody(info, rs) {
+		return "commutative"
+	}
+	return "order-sensitive"
+}
+
+func commutativeBody(info *types.Info, rs *ast.RangeStmt) bool {
+	ok := true
+	var checkStmt func(s ast.Stmt)
+	checkStmt = func(s ast.Stmt) {
+		switch st := s.(type) {
+		case *ast.IncDecStmt:
+		case *ast.AssignStmt:
+			switch st.Tok {
+			case token.ADD_ASSIGN, token.OR_ASSIGN, token.AND_ASSIGN, token.MUL_ASSIGN, token.XOR_ASSIGN:
+				if b, isB := info.TypeOf(st.Lhs[0]).Underlying().(*types.Basic); !isB || b.Info()&types.IsString != 0 {
+					ok = false // string concatenation is order-sensitive
+				}
+			case token.ASSIGN:
+				// m[k] = v (set/map update) is fine; x = loopvar is fine only under a comparison guard (handled by IfStmt)
+				for _, l := range st.Lhs {
+					if _, isIdx := l.(*ast.IndexExpr); !isIdx {
+						ok = false
+					} else if _, isMap := info.TypeOf(l.(*ast.IndexExpr).X).Underlying().(*types.Map); !isMap {
+						ok = false
+					}
+				}
+			default:
+				ok = false
+			}
+		case *ast.IfStmt:
+			// guarded extremum: if k > acc { acc = k }
+			be, isBE := st.Cond.(*ast.BinaryExpr)
+			if isBE && (be.Op == token.GTR || be.Op == token.LSS || be.Op == token.GEQ || be.Op == token.LEQ) && st.Else == nil && len(st.Body.List) == 1 {
+				if as, isAs := st.Body.List[0].(*ast.AssignStmt); isAs && as.Tok == token.ASSIGN && len(as.Lhs) == 1 {
+					l, r := exprString(as.Lhs[0]), exprString(as.Rhs[0])
+					cx, cy := exprString(be.X), exprString(be.Y)
+					if (l == cy && r == cx) || (l == cx && r == cy) {
+						return
+					}
+				}
+			}
+			if st.Else != nil {
+				ok = false
+				return
+			}
+			for _, b := range st.Body.List {
+				checkStmt(b)
+			}
+		case *ast.BlockStmt:
+			for _, b := range st.List {
+				checkStmt(b)
+			}
+		case *ast.ExprStmt:
+			if call, isCall := st.X.(*ast.CallExpr); isCall && exprString(call.Fun) == "delete" {
+				return
+			}
+			ok = false
+		default:
+			ok = false
+		}
+	}
+	for _, s := range rs.Body.List {
+		checkStmt(s)
+	}
+	return ok
+}
+
+// ---------------------------------------------------------------- C-src: no ambient nondeterminism in pkg/
+
+var bannedImports = map[string][]string{
+	"math/rand":    nil,
+	"math/rand/v2": nil,
+	"crypto/rand":  nil,
+	"time":         {"Now", "Since", "Until"},
+	"os":           {"Getpid", "Getppid", "Hostname"},
+}
+
+// nondetUses lists uses of banned identifiers in a file (by import name, no type information needed).
+func nondetUses(file *ast.File) []token.Pos {
+	local := map[string]string{}
+	for _, im := range file.Imports {
+		path := strings.Trim(im.Path.Value, `"`)
+		if _, banned := bannedImports[path]; !banned {
+			continue
+		}
+		name := path[strings.LastIndex(path, "/")+1:]
+		if path == "math/rand/v2" {
+			name = "rand"
+		}
+		if im.Name != nil {
+			name = im.Name.Name
+		}
+		local[name] = path
+	}
+	var out []token.Pos
+	ast.Inspect(file, func(n ast.Node) bool {
+		sel, ok := n.(*ast.SelectorExpr)
+		if !ok {
+			return true
+		}
+		id, ok := sel.X.(*ast.Ident)
+		if !ok || id.Obj != nil {
+			return true
+		}
+		path, ok := local[id.Name]
+		if !ok {
+			return true
+		}
+		names := bannedImports[path]
+		if names == nil {
+			out = append(out, sel.Pos())
+			return true
+		}
+		for _, nm := range names {
+			if sel.Sel.Name == nm {
+				out = append(out, sel.Pos())
+			}
+		}
+		return true
+	})
+	return out
+}
